@@ -443,6 +443,16 @@ func (fc *FnCtx) doSelect(x *ssa.Select) {
 		ri++
 	}
 	fc.setVal(x, out)
+	// anchor "select": argK is the channel of case K, ret0 the index of the case taken (-1: default), ret1 recvOk
+	var chans []Val
+	for _, s := range x.States {
+		chans = append(chans, fc.operand(s.Chan))
+	}
+	fc.anchorArgs = chans
+	fc.anchorBefore("select", x.Pos())
+	fc.anchorRes = &out
+	fc.anchorAfter("select", x.Pos())
+	fc.anchorRes = nil
 }
 
 func (fc *FnCtx) doGo(x *ssa.Go) {
